@@ -87,7 +87,7 @@ def gen_cases(tier, seed):
             add(list(t))
     for _ in range(150 if quick else 1500):
         n = rng.choice([3, 4, 5, 8, 12, 20, 40] + ([100, 300] if quick else [100, 300, 600, 900]))
-        style = rng.choice(["ar", "noise", "season", "flat"])
+        style = rng.choice(["ar", "noise", "season", "flat", "offset"])
         if style == "ar":
             v, x = [], 0.0
             for _ in range(n):
@@ -97,6 +97,13 @@ def gen_cases(tier, seed):
             v = [rng.randint(-2900, 10000) for _ in range(n)]
         elif style == "season":
             v = [int(4000 + 2500 * np.sin(t * 0.35) + rng.gauss(0, 200)) for t in range(n)]
+        elif style == "offset":  # a few counts of amplitude on a large offset (std / |mean| down to 1e-5): the variance is small but real
+            off = rng.choice([0, 1000, 30000, 32000, 32700, -30000, -32000, -32700])
+            amp = rng.choice([1, 3, 6, 20])
+            v, x = [], 0.0
+            for _ in range(n):
+                x = 0.7 * x + rng.gauss(0, 1)
+                v.append(off + max(0, min(amp, int(round(amp / 2 + x * amp / 4)))))
         else:
             v = [rng.choice([100, 100, 100, 101]) for _ in range(n)]
         gap = rng.choice(["none", "random", "outage", "lead", "trail"])
